@@ -6,7 +6,7 @@ use std::panic::{catch_unwind, AssertUnwindSafe};
 use std::any::Any;
 use std::rc::Rc;
 
-use tulisp::{tulisp_fn, Error, ErrorKind, TulispContext, TulispObject, TulispValue};
+use tulisp::{list, tulisp_fn, Error, ErrorKind, TulispContext, TulispObject, TulispValue};
 
 fn hex_decode(h: &str) -> String {
     if h == "-" {
@@ -100,6 +100,18 @@ fn new_ctx() -> Ctx {
     fn host_box() -> Rc<dyn Any> {
         Rc::new(42u8)
     }
+    #[tulisp_fn(add_func = "ctx", name = "host-opt")]
+    fn host_opt(a: i64, b: Option<i64>, rest: TulispObject) -> Result<TulispObject, Error> {
+        let bv = match b {
+            Some(v) => TulispObject::from(v),
+            None => TulispObject::nil(),
+        };
+        list!(,TulispObject::from(a) ,bv ,rest)
+    }
+    #[tulisp_fn(add_func = "ctx", name = "host-conv")]
+    fn host_conv(s: String, f: f64, flag: TulispObject) -> String {
+        format!("{}|{}|{}", s, f.to_bits(), flag.is_truthy())
+    }
     Ctx { ctx, probe }
 }
 
@@ -191,6 +203,62 @@ fn show_obj(o: &TulispObject, out: &mut String) {
         }
         other => out.push_str(&format!("?{}", other)),
     }
+}
+
+// Interpreter of object / symbol API operations over a small register file.
+fn run_api(ops: &[String]) -> Vec<String> {
+    use std::collections::HashMap;
+    let mut ctx = TulispContext::new();
+    let mut regs: HashMap<usize, TulispObject> = HashMap::new();
+    let mut outs = vec![];
+    let g = |regs: &HashMap<usize, TulispObject>, r: &str| -> TulispObject {
+        regs.get(&r.parse::<usize>().unwrap()).cloned().unwrap_or_else(TulispObject::nil)
+    };
+    for op in ops {
+        let f: Vec<&str> = op.split(':').collect();
+        let r = match f[0] {
+            "nil" => { regs.insert(f[1].parse().unwrap(), TulispObject::from(false)); "u".to_string() }
+            "true" => { regs.insert(f[1].parse().unwrap(), TulispObject::from(true)); "u".to_string() }
+            "int" => { regs.insert(f[2].parse().unwrap(), TulispObject::from(f[1].parse::<i64>().unwrap())); "u".to_string() }
+            "flt" => { regs.insert(f[2].parse().unwrap(), TulispObject::from(f64::from_bits(u64::from_str_radix(f[1], 16).unwrap()))); "u".to_string() }
+            "str" => { regs.insert(f[2].parse().unwrap(), TulispObject::from(hex_decode(f[1]))); "u".to_string() }
+            "sym" => { let o = ctx.intern(&hex_decode(f[1])); regs.insert(f[2].parse().unwrap(), o); "u".to_string() }
+            "cons" => { let o = TulispObject::cons(g(&regs, f[1]), g(&regs, f[2])); regs.insert(f[3].parse().unwrap(), o); "u".to_string() }
+            "copy" => { let o = g(&regs, f[1]); regs.insert(f[2].parse().unwrap(), o); "u".to_string() }
+            "car" => match g(&regs, f[1]).car() { Ok(o) => { regs.insert(f[2].parse().unwrap(), o); "u".to_string() } Err(_) => "e".to_string() },
+            "cdr" => match g(&regs, f[1]).cdr() { Ok(o) => { regs.insert(f[2].parse().unwrap(), o); "u".to_string() } Err(_) => "e".to_string() },
+            "push" => match g(&regs, f[1]).push(g(&regs, f[2])) { Ok(_) => "u".to_string(), Err(_) => "e".to_string() },
+            "append" => match g(&regs, f[1]).append(g(&regs, f[2])) { Ok(_) => "u".to_string(), Err(_) => "e".to_string() },
+            "deep" => match g(&regs, f[1]).deep_copy() { Ok(o) => { regs.insert(f[2].parse().unwrap(), o); "u".to_string() } Err(_) => "e".to_string() },
+            "show" => format!("v{}", hex_encode(&g(&regs, f[1]).to_string())),
+            "eq" => if g(&regs, f[1]).eq(&g(&regs, f[2])) { "b1".to_string() } else { "b0".to_string() },
+            "equal" => if g(&regs, f[1]).equal(&g(&regs, f[2])) { "b1".to_string() } else { "b0".to_string() },
+            "set" => match g(&regs, f[1]).set(g(&regs, f[2])) { Ok(_) => "u".to_string(), Err(_) => "e".to_string() },
+            "setscope" => match g(&regs, f[1]).set_scope(g(&regs, f[2])) { Ok(_) => "u".to_string(), Err(_) => "e".to_string() },
+            "unset" => match g(&regs, f[1]).unset() { Ok(_) => "u".to_string(), Err(_) => "e".to_string() },
+            "get" => match g(&regs, f[1]).get() { Ok(o) => { regs.insert(f[2].parse().unwrap(), o); "u".to_string() } Err(_) => "e".to_string() },
+            "boundp" => if g(&regs, f[1]).boundp() { "b1".to_string() } else { "b0".to_string() },
+            "toint" => match i64::try_from(g(&regs, f[1])) { Ok(v) => format!("i{}", v), Err(_) => "e".to_string() },
+            "toflt" => match f64::try_from(g(&regs, f[1])) { Ok(v) => format!("f{:x}", v.to_bits()), Err(_) => "e".to_string() },
+            "tostr" => match String::try_from(g(&regs, f[1])) { Ok(v) => format!("s{}", hex_encode(&v)), Err(_) => "e".to_string() },
+            "tobool" => if bool::from(g(&regs, f[1])) { "b1".to_string() } else { "b0".to_string() },
+            "iter" => {
+                let mut t = String::new();
+                for item in g(&regs, f[1]).base_iter() {
+                    t.push_str(&item.to_string());
+                    t.push(' ');
+                }
+                format!("l{}", hex_encode(&t))
+            }
+            "list3" => {
+                let (a, b, c) = (g(&regs, f[1]), g(&regs, f[2]), g(&regs, f[3]));
+                match list!(,a ,@b ,c) { Ok(o) => { regs.insert(f[4].parse().unwrap(), o); "u".to_string() } Err(_) => "e".to_string() }
+            }
+            _ => "?".to_string(),
+        };
+        outs.push(r);
+    }
+    outs
 }
 
 fn run() {
@@ -368,6 +436,19 @@ fn run() {
                         }
                     }
                     Err(_) => writeln!(out, "{} {} PARSE panic", case_id, idx).unwrap(),
+                }
+                idx += 1;
+            }
+            "api" => {
+                if announce {
+                    writeln!(out, "BEGIN {} {}", case_id, idx).unwrap();
+                    out.flush().unwrap();
+                }
+                let ops: Vec<String> = parts[1..].iter().filter(|x| !x.is_empty()).map(|x| x.to_string()).collect();
+                let res = catch_unwind(AssertUnwindSafe(|| run_api(&ops)));
+                match res {
+                    Ok(r) => writeln!(out, "{} {} API {}", case_id, idx, r.join("|")).unwrap(),
+                    Err(_) => writeln!(out, "{} {} API PANIC", case_id, idx).unwrap(),
                 }
                 idx += 1;
             }
